@@ -57,10 +57,15 @@ func modelDump(m map[string]string) string {
 // rwDriver: `readers` reader threads (the i-th begins after i yields so that ages differ) and one writer thread
 // doing ntx page-recycling updates. versions[id] is recorded by the writer inside the body, before commit.
 func rwDriver(readers, ntx, fill int, grow bool) func(param string) mc.Driver {
+	return rwDriverOpt(readers, ntx, fill, grow, false, 0)
+}
+
+// rwDriverOpt: nfs = open with NoFreelistSync; panicAt = the writer's panicAt-th update panics after its edits (0: none).
+func rwDriverOpt(readers, ntx, fill int, grow bool, nfs bool, panicAt int) func(param string) mc.Driver {
 	return func(param string) mc.Driver {
 		ps, flt := parseParam(param)
 		return func(s *vsync.Session) mc.Outcome {
-			e, err := openEnv(s, ps, flt, fill, nil)
+			e, err := openEnv(s, ps, flt, fill, func(o *bolt.Options) { o.NoFreelistSync = nfs })
 			if err != nil {
 				return mc.Outcome{Fail: "open: " + err.Error()}
 			}
@@ -72,36 +77,49 @@ func rwDriver(readers, ntx, fill int, grow bool) func(param string) mc.Driver {
 			var obs []string
 			vsync.GoNamed("W", func() {
 				for t := 1; t <= ntx; t++ {
-					err := e.db.Update(func(tx *bolt.Tx) error {
-						b := tx.Bucket([]byte("c"))
-						m2 := map[string]string{}
-						for k, v := range model {
-							m2[k] = v
+					t := t
+					func() {
+						if t == panicAt {
+							defer func() {
+								if r := recover(); r == nil || fmt.Sprint(r) != "boom" {
+									e.failf("writer: expected the body's own panic, got %v", r)
+								}
+							}()
 						}
-						put := func(k, v string) {
-							if err := b.Put([]byte(k), []byte(v)); err != nil {
-								e.failf("put: %v", err)
+						err := e.db.Update(func(tx *bolt.Tx) error {
+							b := tx.Bucket([]byte("c"))
+							m2 := map[string]string{}
+							for k, v := range model {
+								m2[k] = v
 							}
-							m2[k] = v
-						}
-						put("x", fmt.Sprint(t))
-						put(fmt.Sprintf("k%03d", t%3), strings.Repeat(fmt.Sprint(t%10), ps*3/10))
-						if t%2 == 0 {
-							_ = b.Delete([]byte("k001"))
-							delete(m2, "k001")
-						}
-						if grow {
-							for i := 0; i < 40; i++ {
-								put(fmt.Sprintf("g%d_%03d", t, i), strings.Repeat("g", ps*3/10))
+							put := func(k, v string) {
+								if err := b.Put([]byte(k), []byte(v)); err != nil {
+									e.failf("put: %v", err)
+								}
+								m2[k] = v
 							}
+							put("x", fmt.Sprint(t))
+							put(fmt.Sprintf("k%03d", t%3), strings.Repeat(fmt.Sprint(t%10), ps*3/10))
+							if t%2 == 0 {
+								_ = b.Delete([]byte("k001"))
+								delete(m2, "k001")
+							}
+							if grow {
+								for i := 0; i < 40; i++ {
+									put(fmt.Sprintf("g%d_%03d", t, i), strings.Repeat("g", ps*3/10))
+								}
+							}
+							if t == panicAt {
+								panic("boom") // the edits above must leave no trace
+							}
+							versions[tx.ID()] = modelDump(m2)
+							model = m2
+							return nil
+						})
+						if err != nil {
+							e.failf("writer update %d: %v", t, err)
 						}
-						versions[tx.ID()] = modelDump(m2)
-						model = m2
-						return nil
-					})
-					if err != nil {
-						e.failf("writer update %d: %v", t, err)
-					}
+					}()
 					obs = append(obs, fmt.Sprintf("W%d", t))
 				}
 			})
@@ -165,6 +183,7 @@ func init() {
 	mc.Registry["d2"] = rwDriver(2, 3, 6, false)
 	mc.Registry["d3"] = rwDriver(1, 2, 60, true) // the commits outgrow the 32 KiB map: remap while a reader may be open
 	mc.Registry["d4"] = rwDriver(2, 1, 6, false)
+	mc.Registry["d5"] = rwPanicDriver
 	hx.Registry["c02-life"] = func(tier string) []*hx.Scope {
 		n, maxTx := 7, 3
 		seeds := []string{"twolevel", "freeruns"}
@@ -184,6 +203,13 @@ func init() {
 	}
 }
 
+// rwPanicDriver: like d1, but the writer's second of four updates panics (physical rollback path) and the
+// database may run without a persisted freelist (param "nfs").
+func rwPanicDriver(param string) mc.Driver {
+	inner := rwDriverOpt(1, 4, 6, false, strings.Contains(param, "nfs"), 2)
+	return inner(param)
+}
+
 // C02: a read transaction sees one immutable snapshot.
 func C02(tier string) int {
 	ps := []string{"array", "hashmap"}
@@ -194,12 +220,13 @@ func C02(tier string) int {
 			{Name: "d2", Params: ps, Quick: 2, Thorough: 2},
 			{Name: "d3", Params: ps[:1], Quick: 1, Thorough: 2},
 			{Name: "d4", Params: ps, Quick: 2, Thorough: 3},
+			{Name: "d5", Params: []string{"array,nfs", "hashmap,nfs", "array"}, Quick: 2, Thorough: 3},
 		},
 		Rule:        "(b) stateless depth-first exploration of every schedule with at most the stated number of preemptions of reader threads (begin, three full dumps separated by yields, close) against a writer thread doing page-recycling (and, in d3, map-outgrowing) updates; scheduling points at every lock operation and every I/O call of the real code; oracle: each dump equals the version named by the reader's id, which must be a version committed (meta written) at that instant, and never changes. (a) explicit-state BFS over event orders (c02-life, reported under hx_*): up to 3 readers of different ages, writers with page-freeing bodies, rollbacks, reopen; after every writer event every open reader is re-dumped forwards and backwards and compared with its version, and the write monitor checks every write",
 		Assumptions: []string{"reader-internal preemption is not explored: snapshot stability = private meta copy + no write into the snapshot's pages (write monitor, C06) + pinned mapping (DESIGN.md 4/C02)"},
 		Quick:       60 * time.Second, Thorough: 20 * time.Minute,
 		Extra: func(tier string, cov map[string]interface{}) []string {
-			return subHX("C02", []string{"c02-life"}, tier, cov, 45*time.Second, 15*time.Minute)
+			return subHX("C02", []string{"c02-life", "c02-fault"}, tier, cov, 70*time.Second, 20*time.Minute)
 		},
 	}, tier)
 	return rc
